@@ -101,7 +101,7 @@ class C16(Prop):
                 rows = [[abs(v) for v in r] for r in rows]
                 grid = [abs(g) for g in grid]  # a feature grid consists of values the column can take
             yield {"stream": "pd", "container": container, "rows": rows, "j": j, "k": kk, "grid": grid,
-                   "grid_container": rng.choice(["list", "np", "polars"]), "w": w, "n_max": nmax, "seed": seed,
+                   "grid_container": rng.choice(["list", "np", "polars", "polars_named"]), "w": w, "n_max": nmax, "seed": seed, "int_pred": rng.random() < 0.3,
                    "a": rng.randint(-2, 3), "b": rng.randint(-2, 2), "c": rng.randint(-1, 3)}
 
     def subsample(self, case):
@@ -120,6 +120,11 @@ class C16(Prop):
             grid = np.array(grid, dtype=float)
         elif case["grid_container"] == "polars":
             grid = pl.Series([float(g) for g in grid])
+        elif case["grid_container"] == "polars_named":
+            # a named Series: called like ANOTHER column of X (or like nothing in X) - only its values matter
+            ncol_ = len(case["rows"][0])
+            other = [q for q in range(ncol_) if q != case["j"]]
+            grid = pl.Series(f"c{other[0]}" if other and len(case["grid"]) % 2 else "grid_values", [float(g) for g in grid])
         w = None if case["w"] is None else np.array(case["w"], dtype=float)
         before = (snapshot(X), snapshot(grid), snapshot(w))
         j, k, a, b, c = case["j"], case["k"], case["a"], case["b"], case["c"]
@@ -129,7 +134,10 @@ class C16(Prop):
             xj, xk = column(Xs, j), column(Xs, k)
             ncol = len(case["rows"][0])
             shown.append([column(Xs, q).tolist() for q in range(ncol)])
-            return a * xj * xk + b * xk * xk + c * xj
+            val = a * xj * xk + b * xk * xk + c * xj
+            if case.get("int_pred") and np.all(val == np.round(val)):
+                return val.astype(np.int64)  # a model that predicts whole numbers (counts, classes) as integers
+            return val
 
         kw = {} if case["n_max"] is None else {"n_max": case["n_max"]}
         if case["n_max"] is None:
